@@ -66,7 +66,7 @@ reg('C04', ['u_dfa', 'u_mode', 'u_iter', 'u_build', 'u_c04find'],
     'a reported token is a cand: accepted by its pattern automaton AND la_ok(tid, rest at token end) (positive: some non-empty prefix of the rest matched by the lookahead automaton; negative: none; empty rest => positive fails); span end = start + own bytes (lookahead never inside); converse: find_post forbids None while a candidate exists; call sites next_match/peek_n establish that the haystack slice and the iterator indices refer to the same text for every offset (ci_at precondition of find_from)',
     [WF, CLS, ITER, UTF8, C02DEP,
      'KNOWN FINDING D9 (genuine defect, not repaired; known_findings.txt, findings/D9_shared_token_type_lookahead.json): the pattern-level reading of C04 (every pattern gated by ITS OWN lookahead, theorem_scanner_cand) holds only for modes in which patterns sharing a token type carry the same lookahead (la_consistent): lookaheads are stored per token type, the last one wins and gates all patterns of that token type (proved: lemma_scanner_cand_last). Unit U-c04find carries the property-faithful obligation without that hypothesis; it fails on every run and is reported as KNOWN-FINDING'])
-reg('C05', ['u_dfa', 'u_build'], 'find_post: the reported (length, token type) is one candidate with satisfied lookahead that is no_better-maximal in extent = own bytes + longest positive-lookahead match, ties by first position in terminal_ids; all unwrap/index/overflow obligations of find_from, priority_of, satisfies_lookahead', [WF, CLS])
+reg('C05', ['u_dfa', 'u_build'], 'find_post: the reported (length, token type) is one candidate with satisfied lookahead that is no_better-maximal in extent = own bytes + longest positive-lookahead match, ties by first position in terminal_ids; all unwrap/index/overflow obligations of find_from, priority_of, satisfies_lookahead', [WF, CLS, C02DEP, 'the pattern-level reading (which pattern a candidate belongs to, whose lookahead it carries) holds for modes in which patterns sharing a token type carry the same lookahead; otherwise see known finding D9 under C04'])
 
 reg('C06', ['u_mode', 'u_iter', 'u_api', 'u_build'], 'mode after every operation is the function of (old mode, token type, transition list) the property states: has_transition == lookup in the sorted list; find_from switches, peek_from/has_transition/current_mode do not, set_mode sets, reset gives 0', [WF, 'set_mode(m) is called with m < number of modes (documented precondition)'])
 
